@@ -313,6 +313,10 @@ class CIPDriver:
             self._cfg["vsn"] = urandom(4)
             if self._register_session() is None:
                 self.__log.error("Session not registered")
+                # without a session nothing may be sent: drop the socket so that a later open() starts over
+                self._sock.close()
+                self._sock = None
+                self._connection_opened = False
                 return False
             return True
         except Exception as err:
